@@ -1,11 +1,13 @@
 import IcyVerif.Drv.Font
 import IcyVerif.Drv.Tdf
+import IcyVerif.Drv.FontBox
 open IcyVerif.Drv
 
 def dispatch (line : String) : String :=
   match line.trimAscii.toString.splitOn " " with
   | "font" :: rest => Font.handle rest
   | "tdf" :: rest => Tdf.handle rest
+  | "fontbox" :: rest => FontBox.handle rest
   | _ => "bad-op"
 
 partial def loop (h : IO.FS.Stream) (out : IO.FS.Stream) : IO Unit := do
